@@ -46,6 +46,12 @@ namespace parmcb {
         ~SpVecGF2(void) {
         }
 
+        SpVecGF2<U>& operator=(const U &index) {           // R17d positive: `x = {}` now means the unit vector {0}
+            ones.clear();
+            ones.push_back(index);
+            return *this;
+        }
+
         SpVecGF2<U>& operator=(const SpVecGF2<U> &v) {
             if (this == &v) {
                 return *this;
